@@ -4,8 +4,10 @@ Import ListNotations.
 Local Open Scope string_scope. Local Open Scope list_scope.
 
 Inductive delim := Paren | Bracket | Brace.
-Inductive punct := PComma | PBang | PQuote | PAmp | PColon | PLt | PGt | PSemi | PEq | PPlus | PMinus | POther.
-Inductive tt := TId (s: string) | TP (c: punct) | TLit (n: nat) | TG (d: delim) (ts: list tt).
+Inductive punct := PComma | PBang | PQuote | PAmp | PColon | PLt | PGt | PSemi | PEq | PPlus | PMinus | PHash | POther.
+(* literals: the ones the parser looks into are unsuffixed decimal numbers (array lengths, const defaults) and strings (attribute values) *)
+Inductive lit := LNat (n: nat) | LStr (s: string).
+Inductive tt := TId (s: string) | TP (c: punct) | TLit (l: lit) | TG (d: delim) (ts: list tt).
 
 Inductive cvt := CValue (n: nat) | CNamedC (t: ty)
 with cat := CNever | CArray (t: ty) (len: option cvt) | CTuple (l: list ty) | CNamed (path: list string) | CLifetime (s: string) | CUnNamed
@@ -71,7 +73,7 @@ Definition after_ref (nt: list tt -> res (option ty)) (rt: option (option string
             match inner1 with
             | TP PSemi :: inner2 =>
                 match inner2 with
-                | TLit n :: _ => Ok (Some (Ty (CArray elem (Some (CValue n))) (Some [elem]) rt None)) rest
+                | TLit (LNat n) :: _ => Ok (Some (Ty (CArray elem (Some (CValue n))) (Some [elem]) rt None)) rest
                 | [] => Panic
                 | _ => bind (expect (nt inner2)) (fun c _ => Ok (Some (Ty (CArray elem (Some (CNamedC c))) (Some [elem]) rt None)) rest)
                 end
